@@ -1,5 +1,6 @@
 (* Facts about the model of create_initial_allocation (property C03). *)
-From FrameModel Require Import Num.QcTac Geometry.Rect Geometry.RectFacts Alloc.Alloc Alloc.Initial Alloc.InitialGeom.
+From FrameModel Require Import Num.QcTac Geometry.Rect Geometry.RectFacts Alloc.Alloc Alloc.Initial Alloc.InitialGeom
+  Cases.Cmp Cases.CmpC03.
 Open Scope list_scope.
 Open Scope Qc_scope.
 
@@ -8,7 +9,13 @@ Open Scope Qc_scope.
 (* ------------------------------------------------------------------ *)
 Section Facts.
   Variable sqrt_o : Qc -> Qc.
-  Definition sqrt_contract : Prop := forall a, 0 <= a -> 0 <= sqrt_o a /\ sqrt_o a * sqrt_o a = a.
+  (* the contract of math.sqrt, required only at the areas that occur (no rational function
+     satisfies it everywhere) *)
+  Definition sqrt_at (a : Qc) : Prop := 0 <= sqrt_o a /\ sqrt_o a * sqrt_o a = a.
+  (* a module without rectangles can be given its square: it has a centre, a positive area,
+     and the root of that area is exact *)
+  Definition squarable (m : nmod) : Prop :=
+    mrects m = [] -> (exists p, mcenter m = Some p) /\ 0 < marea m /\ sqrt_at (marea m).
 
   (* the rectangles a module has when the ratios are computed: its own, or the square *)
   Definition shape (m : nmod) : list Rect :=
@@ -32,11 +39,11 @@ Section Facts.
   Qed.
 
   (* the square really is a square of the module's area around its centre *)
-  Lemma shape_square m x y : sqrt_contract -> mrects m = [] -> mcenter m = Some (x, y) -> 0 < marea m ->
+  Lemma shape_square m x y : sqrt_at (marea m) -> mrects m = [] -> mcenter m = Some (x, y) -> 0 < marea m ->
     exists s, shape m = [mkRect x y s s false false "_" NOPOLY] /\ 0 < s /\ s * s = marea m.
   Proof.
     intros Hc Hr Hm Ha. unfold shape, create_square. rewrite Hr, Hm.
-    destruct (Hc (marea m)) as [S0 S1]; [qlra|].
+    destruct Hc as [S0 S1].
     destruct (Qcltb (marea m) 0) eqn:E0; qb2p; [exfalso; qlra|].
     assert (0 < sqrt_o (marea m)).
     { destruct (Qceqb (sqrt_o (marea m)) 0) eqn:E; qb2p; [exfalso; rewrite E in S1; qlra|qlra]. }
@@ -44,15 +51,14 @@ Section Facts.
     exists (sqrt_o (marea m)). auto.
   Qed.
 
-  Lemma create_squares_defined ms : sqrt_contract ->
-    Forall (fun m => mrects m = [] -> (exists p, mcenter m = Some p) /\ 0 < marea m) ms ->
+  Lemma create_squares_defined ms : Forall squarable ms ->
     create_squares sqrt_o ms = Some (map squared ms).
   Proof.
-    intros Hc. induction 1 as [|m ms Hm _ IH]; cbn [create_squares map]; [reflexivity|].
+    induction 1 as [|m ms Hm _ IH]; cbn [create_squares map]; [reflexivity|].
     rewrite IH.
     assert (E : with_square sqrt_o m = Some (squared m)).
     { unfold with_square, squared, shape. destruct (mrects m) as [|r0 rs] eqn:Er.
-      - destruct (Hm eq_refl) as [[[x y] Hp] Ha].
+      - destruct (Hm Er) as ([[x y] Hp] & Ha & Hc).
         destruct (shape_square m x y Hc Er Hp Ha) as (s & Hs & _). unfold shape in Hs. rewrite Er in Hs.
         destruct (create_square sqrt_o m); [reflexivity|discriminate].
       - unfold set_rects. rewrite <- Er. destruct m; reflexivity. }
@@ -552,7 +558,6 @@ Qed.
 (* ------------------------------------------------------------------ *)
 Section Main.
   Variable sqrt_o : Qc -> Qc.
-  Hypothesis Hsqrt : sqrt_contract sqrt_o.
   Notation shape := (shape sqrt_o).
   Notation squared := (squared sqrt_o).
 
@@ -560,14 +565,14 @@ Section Main.
      proper rectangles without common area; the fixed regions are the rectangles of the fixed
      modules (Die takes them from netlist.fixed_rectangles()); refinable regions are not marked
      fixed; module names are distinct; a module without rectangles has a centre and a positive
-     area (no terminals) *)
+     area (no terminals) whose root sqrt_o returns exactly *)
   Definition compatible (R Fx : list Rect) (mods : list nmod) : Prop :=
     Forall wf (R ++ Fx) /\ pairwise_no_ov (R ++ Fx) /\
     Forall (fun r => fixed r = false) R /\
     Fx = flat_map mrects (filter mfixed mods) /\
     Forall (fun m => mfixed m = true -> mrects m <> []) mods /\
     NoDup (map mname mods) /\
-    Forall (fun m => mrects m = [] -> (exists p, mcenter m = Some p) /\ 0 < marea m) mods.
+    Forall (squarable sqrt_o) mods.
 
   Lemma filter_squared mods : filter mfixed (map squared mods) = map squared (filter mfixed mods).
   Proof.
@@ -600,7 +605,7 @@ Section Main.
     intros (HW & HP & HR & HF & HX & HN & HS) H0 H1. unfold initial_allocation.
     destruct (mk_allocation aeps (init_cells R Fx)) as [cells|] eqn:E; [|reflexivity].
     apply mk_allocation_inv in E. subst cells.
-    rewrite (create_squares_defined sqrt_o mods Hsqrt HS).
+    rewrite (create_squares_defined sqrt_o mods HS).
     set (ms := map squared mods).
     assert (EF : Fx = flat_map mrects (filter mfixed ms)) by (unfold ms; rewrite fixed_rects_squared; assumption).
     assert (HN' : NoDup (map mname ms)) by (unfold ms; rewrite names_squared; exact HN).
@@ -910,3 +915,86 @@ Section Main.
           exists c. split; [exact Hin'|]. apply (div_pos_iff _ (area c) (wf_area_pos c (WR c Hin'))). exact Hl.
   Qed.
 End Main.
+
+(* ------------------------------------------------------------------ *)
+(* Example: the hypotheses are satisfiable by a non-trivial state       *)
+(* ------------------------------------------------------------------ *)
+(* A 4 x 4 die.  Blockage x 2..4, y 2..4 (not a cell).  Fixed module F1 at x 0..1, y 3..4.
+   Refinable regions: A = x 0..2, y 0..3;  B = x 1..2, y 3..4;  C = x 2..4, y 0..2 (region dsp).
+   Soft module S: area 4, centre (3.5, 2), no rectangles -> the square x 2.5..4.5, y 1..3, which
+   sticks out of the die (x > 4), lies partly on the blockage (y 2..3) and contains the hard
+   module H = x 2.5..3.5, y 1..2.  S covers 1.5 of C's area 4, H covers 1. *)
+Module Ex.
+  Definition sq : Qc -> Qc := table_sqrt [(qc 4 1, qc 2 1)].
+  Definition A := mkRect (qc 1 1) (qc 3 2) (qc 2 1) (qc 3 1) false false "_" NOPOLY.
+  Definition B := mkRect (qc 3 2) (qc 7 2) (qc 1 1) (qc 1 1) false false "_" NOPOLY.
+  Definition C := mkRect (qc 3 1) (qc 1 1) (qc 2 1) (qc 2 1) false false "dsp" NOPOLY.
+  Definition F1 := mkRect (qc 1 2) (qc 7 2) (qc 1 1) (qc 1 1) true true "_" TRUNK.
+  Definition H1 := mkRect (qc 3 1) (qc 3 2) (qc 1 1) (qc 1 1) false true "_" TRUNK.
+  Definition R := [A; B; C].
+  Definition mods := [ mkMod "S" false false (qc 4 1) (Some (qc 7 2, qc 2 1)) [];
+                       mkMod "H" false true (qc 1 1) (Some (qc 3 1, qc 3 2)) [H1];
+                       mkMod "F1" true true (qc 1 1) (Some (qc 1 2, qc 7 2)) [F1] ].
+  Definition feps := qc 1 1000000.
+  Definition aeps := qc 1 1000000.
+
+  Ltac qdec := first [ apply Qcltb_true | apply Qcleb_true | apply Qceqb_true ]; vm_compute; reflexivity.
+
+  Example compatible_ex : compatible sq R [F1] mods.
+  Proof.
+    unfold compatible. splits.
+    - repeat constructor; qdec.
+    - cbn [R app pairwise_no_ov]. splits; repeat constructor; qdec.
+    - repeat constructor.
+    - reflexivity.
+    - repeat constructor; cbn [mfixed mrects]; intros; discriminate.
+    - cbn [map mods mname]. repeat constructor; cbn [In]; intuition discriminate.
+    - unfold mods. constructor; [|constructor; [|constructor; [|constructor]]]; intro E; try discriminate E.
+      split; [eexists; reflexivity|]. split; [qdec|]. split; qdec.
+  Qed.
+
+  Example well_placed_ex : well_placed R [F1] mods.
+  Proof.
+    unfold well_placed. splits.
+    - discriminate.
+    - repeat constructor; qdec.
+    - repeat constructor.
+    - repeat constructor; cbn [mrects pairwise_no_ov]; auto; qdec.
+  Qed.
+
+  (* the square of S *)
+  Example shape_ex : shape sq (mkMod "S" false false (qc 4 1) (Some (qc 7 2, qc 2 1)) []) =
+                     [mkRect (qc 7 2) (qc 2 1) (sq (qc 4 1)) (sq (qc 4 1)) false false "_" NOPOLY] /\
+                     sq (qc 4 1) = qc 2 1.
+  Proof. split; [reflexivity|]. qdec. Qed.
+
+  (* the result: F1's cell first, wholly F1's and marked fixed; A and B empty; C lists S with 3/8
+     and H with 1/4 (both cover the same part of C: modules may overlap) *)
+  Example result_ex :
+    agree_accept [0; 0; 0; 0]%Z (initial_allocation sq feps aeps false R [F1] mods)
+      [ mkCell (set_fixed F1) [("F1"%string, 1)] 0%nat; mkCell A [] 0%nat; mkCell B [] 0%nat;
+        mkCell C [("S"%string, qc 3 8); ("H"%string, qc 1 4)] 0%nat ] = true.
+  Proof. vm_compute. reflexivity. Qed.
+
+  (* with zero entries every module is listed in every refinable cell; accepted because every
+     module touches some cell *)
+  Example result_zero_ex :
+    agree_accept [0; 0; 0; 0]%Z (initial_allocation sq feps aeps true R [F1] mods)
+      [ mkCell (set_fixed F1) [("F1"%string, 1)] 0%nat;
+        mkCell A [("S"%string, 0); ("H"%string, 0); ("F1"%string, 0)] 0%nat;
+        mkCell B [("S"%string, 0); ("H"%string, 0); ("F1"%string, 0)] 0%nat;
+        mkCell C [("S"%string, qc 3 8); ("H"%string, qc 1 4); ("F1"%string, 0)] 0%nat ] = true.
+  Proof. vm_compute. reflexivity. Qed.
+
+  (* outside the hypotheses the construction does reject: a fixed module that covers half of a
+     cell, and a soft module that touches no cell when zero entries are requested *)
+  Example reject_half_ex :
+    agree_reject (initial_allocation sq feps aeps false R []
+       [mkMod "F1" true true (qc 1 1) None [mkRect (qc 7 2) (qc 1 1) (qc 1 1) (qc 2 1) true true "_" TRUNK]])
+       RFixedRatio = true.
+  Proof. vm_compute. reflexivity. Qed.
+  Example reject_untouched_ex :
+    agree_reject (initial_allocation sq feps aeps true R []
+       [mkMod "S" false false (qc 4 1) (Some (qc 10 1, qc 10 1)) []]) RZeroArea = true.
+  Proof. vm_compute. reflexivity. Qed.
+End Ex.
